@@ -75,12 +75,6 @@ package index
 //@   modifies self.purgedAt
 //@   ensures self.purgedAt == now()
 //@ end
-//@ ghost field github.com/lindb/lindb/kv/version.Snapshot.takenAt int
-//@ func github.com/lindb/lindb/kv.Family.GetSnapshot
-//@   norefine
-//@   modifies nothing
-//@   ensures result != nil && result.takenAt == now()
-//@ end
 //@ func github.com/lindb/lindb/kv.Family.NewFlusher
 //@   modifies nothing
 //@   ensures result != nil
